@@ -2,6 +2,7 @@ package checks
 
 import (
 	"context"
+	"time"
 	"fmt"
 	"runtime"
 	"sort"
@@ -147,6 +148,7 @@ type c07step struct {
 }
 
 func runC07(args []string) int {
+	t0 := time.Now()
 	r := rep.New("C07", "exploration")
 	tier := rep.Tier()
 	k := 3
@@ -210,9 +212,13 @@ func runC07(args []string) int {
 		}()
 	}
 	wg.Wait()
+	tMain := time.Since(t0).Seconds()
 	ue, uo := c07Unique(r)
+	tUnique := time.Since(t0).Seconds()
 	ke, ko := c07Kinds(r)
+	tKinds := time.Since(t0).Seconds()
 	ae, ao := c07Arrays(r)
+	r.Coverage["wall_s_parts"] = map[string]float64{"twins": tMain, "unique": tUnique - tMain, "kinds": tKinds - tUnique, "arrays_json": time.Since(t0).Seconds() - tKinds}
 	r.Coverage["composite_matcher_requests_per_kind_compared"] = ke
 	r.Coverage["evaluations"] = evals + ue + ke + ae
 	r.Coverage["distinct_nontrivial"] = len(outcomes) + uo + ko + ao
